@@ -10,22 +10,22 @@ CLAIMED = {
  "C01": dict(
    technique="Lean 4 theorems apply_valid (whatever apply returns for a valid document and valid payload is valid, all eight step kinds) and apply_no_internal (a step with a well-formed payload never ends in the internal-error outcome, no hypothesis on positions) over the executable model of Step.apply; exact differential correspondence of Step.apply incl. JSON-decoded, ill-formed and unordered steps; check() + independent spec validator as oracle",
    text="27 kernel-checked theorems (Props/C01.lean; Proofs/ReplaceValid, StepValid, NoInternal, MarkupSuccess, MarkSuccess): validity of every result, absence of the internal-error outcome under the decidable payload condition StepWF (each hypothesis shown necessary by an example reproduced on the real code), and success characterisations (node-markup steps apply iff the parent allows the marks; range mark steps always apply under TextLoop). The model is tied to the code on generated (schema, document, step) cases every run; any non-ValueError exception for in-document positions is a violation.",
-   note=T + "Guards: payload validity (`openValid`), `TextStable`/`TextLoop` for mark steps (counterexample schema `text?` evaluated in model and code), `StepWF` (slice open depths within its spines, insert within the slice).",
+   note=T + "Guards: payload validity (`openValid`), `TextStable`/`TextLoop` for mark steps (counterexample schema `text?` evaluated in model and code), `StepWF` (slice open depths within its spines, insert within the slice). For the bundled schema family the schema-level guards are themselves theorems: the schemas are regenerated as Lean data from the running library on every run and the guards evaluated by the kernel (lean/Gen, lean/Family: closed corollaries without schema hypotheses).",
    design="§5 C01"),
  "C02": dict(
-   technique="Lean 4 theorems: replace = token splice, slice = token range with open depths, size arithmetic, normal form, token injectivity, and re-insertion SUCCEEDS and is the identity (reinsert_succeeds) — over a structural-recursion model of replace/slice/cut; exact differential correspondence incl. ranges that end before they start",
-   text="17 kernel-checked theorems (Props/C02.lean, ~4 k lines of supporting proofs in Proofs/TokCore, ReplaceToks, Reinsert) about the executable model of Fragment.cut / Node.slice / replace for unbounded trees and every schema; re-insertion of a cut slice is proved to apply and to give back the document for every valid normal-form document. Exact correspondence of slice / cut / replace and a token-level oracle written independently of the model on every run.",
+   technique="Lean 4 theorems: replace = token splice, slice = token range with open depths, size arithmetic, normal form, token injectivity, re-insertion SUCCEEDS and is the identity (reinsert_succeeds); the Fragment constructors and copy-on-write operations (from_array, from_, append, cut, cut_by_index, replace_child, add_to_start/end, eq) modelled with the stored size, so that a stale cache is representable, and proved at token level — over structural-recursion models; exact differential correspondence incl. ranges that end before they start, unjoined and wrongly-sized fragments",
+   text="{n} kernel-checked theorems (Props/C02.lean, ~5 k lines of supporting proofs in Proofs/TokCore, ReplaceToks, Reinsert, FragOps) about the executable model of Fragment / Node.slice / replace for unbounded trees and every schema; re-insertion of a cut slice is proved to apply and to give back the document for every valid normal-form document. Exact correspondence of slice / cut / replace / the constructors and a token-level oracle written independently of the model on every run.",
    note=T + "Guards: normal form (documents with adjacent same-markup text exist only via hand-written JSON), pair-aligned positions (a cut inside a surrogate pair is a ValueError in code and model).",
    design="§5 C02"),
  "C03": dict(
-   technique="Lean 4 theorems: for every step kind the size delta is the map's delta and every old token outside the replaced ranges is found at the mapped position (replace, replace-around, markup steps; every position; whole histories through Transform.mapping); exact correspondence of get_map; per-position oracle on primitive and emitted steps",
-   text="14 kernel-checked theorems (Props/C03.lean) on top of the token-level semantics of all eight step kinds (Proofs/StepToks.lean) for unbounded documents, incl. the last sentence of the property for all step kinds and for composed mappings of whole histories.",
+   technique="Lean 4 theorems: for every step kind the size delta is the map's delta and every old token outside the replaced ranges is found at the mapped position, for BOTH association sides, for single steps and for whole histories through Transform.mapping (mapFold); the `deleted` flag characterised exactly (guard noTouch on the right side, with counterexample), monotonicity, left image never right of right image, a surviving token keeps width one; exact correspondence of get_map, Mapping.map and map_result through histories; per-position oracles on primitive and emitted steps",
+   text="{n} kernel-checked theorems (Props/C03.lean; Proofs/StepToks, StepMap, StepMapLeft, StepMapHist) on top of the token-level semantics of all eight step kinds for unbounded documents, incl. the last sentence of the property for all step kinds and for composed mappings of whole histories.",
    note=T + "Guard of the replace-around theorems: not (empty gap at the end of the range with slice content after it) — the excluded shape is a recorded finding (C03-touching-empty-gap), no library operation emits it.",
    design="§5 C03"),
  "C04": dict(
-   technique="Lean 4 theorems: history bookkeeping invariant for any sequence of attempted steps; inverse maps; EXACT UNDO INCLUDING SUCCESS of replace steps (replace_undo, guard sidesCompatible; unguarded when a slice side is closed or compatibility is transitive), replace-around steps (guards gapFitsBack / sidesCompatibleAround / structure), attribute, doc-attribute, node-mark and range mark steps (exact iff-guards removeMarkUndoable / addMarkUndoable); composition to whole histories (history_undo_of_steps, markHistory_undo for any successful list of add_mark/remove_mark calls, family_history_undo for replayed histories over all eight step kinds under compatTransB and TextLoop); guards tied exactly to the real code; effect-level correspondence of invert; histories replayed and undone",
-   text="{n} kernel-checked theorems (Props/C04.lean; ~9 k lines in Proofs/Undo*, Reinsert, MarkupSuccess, MarkUndo, MarkPlanUndo*, MarkHistory, HistoryUndo): the inverse of an applied step applies and restores the document, for all documents and slices, under explicit decidable guards each of which is shown necessary by a counterexample theorem evaluated in the model and reproduced on the real code (recorded findings: non-transitive join, text gap, structure flag, node marks, same-type mark order); single-step results are composed to histories of any length.",
-   note=T + "The guards are Bool predicates of the model (PM/UndoGuard.lean) compared exactly with the same quantities computed from the real code on every generated case; guard true and real undo failing would be reported.",
+   technique="Lean 4 theorems: history bookkeeping invariant for any sequence of attempted steps; inverse maps; EXACT UNDO INCLUDING SUCCESS of every step kind (replace_undo with guard sidesCompatible, replace-around with gapFitsBack / structure, attribute, doc-attribute, node-mark, range mark steps with exact iff-guards); invert succeeds whenever apply did (invert_ok_of_apply); composition to whole histories; and for histories BUILT THROUGH THE TRANSFORM API: the steps emitted by split / join / lift / wrap / set_node_markup / set_block_type / mark operations / deletions satisfy the per-step guard (…Guard_family, delete_residual), giving opHistory_undo and structHistory_undo_bmp (no per-step hypothesis left for structural histories on BMP documents); guards tied exactly to the real code; histories replayed and undone",
+   text="{n} kernel-checked theorems (Props/C04.lean; ~12 k lines in Proofs/Undo*, Reinsert, MarkupSuccess, MarkUndo, MarkPlanUndo*, MarkHistory, HistoryUndo, InvertOk*, OpGuard*, OpHistory): the inverse of an applied step applies and restores the document, for all documents and slices, under explicit decidable guards each shown necessary by a counterexample theorem reproduced on the real code (recorded findings: non-transitive join, text gap, structure flag incl. wrap with a leaf wrapper, node marks, same-type mark order); composed to histories of operations.",
+   note=T + "The guards are Bool predicates of the model (PM/UndoGuard, MarkUndoGuard, OpGuard) compared exactly with the same quantities computed from the real code on every generated case; guard true and real undo failing would be reported. Left as hypotheses of opHistory_undo: payload validity of steps the Fitter emits for non-empty slices, set_block_type as a whole operation, pair-alignment (model-only). For the bundled schema family the schema-level guards are themselves theorems: the schemas are regenerated as Lean data from the running library on every run and the guards evaluated by the kernel (lean/Gen, lean/Family: closed corollaries without schema hypotheses).",
    design="§5 C04"),
  "C05": dict(
    technique="Lean 4 round-trip theorems fromJson(toJson x) = x for marks, nodes (any depth), fragments, slices and the eight step kinds, attribute defaulting, registry; exact correspondence of to_json/from_json through real json.dumps/loads; aliasing probe; registry probed from a fresh interpreter; malformed-JSON stream",
@@ -35,12 +35,12 @@ CLAIMED = {
  "C06": dict(
    technique="Lean 4 theorems compile_accepts / compile_live: for EVERY expression the automaton produced by the model of the real compiler (parser AST, nfa, null_from, dfa, BFS numbering) accepts exactly the expression's language and keeps exactly the extendable prefixes alive, plus compile_deadEnd; the model is tied exactly to the real compiler (AST, NFA, closures, automaton, accept/reject) on every generated expression; additionally a verified certificate checker re-proves equivalence by the kernel for the bundled expressions against the automata dumped from the running code (regenerated lean/Gen/DfaCerts.lean)",
    text="{n} kernel-checked theorems (Props/C06.lean; Proofs/Compile*.lean, Proofs/Regex.lean, Proofs/SpecParse.lean; semantics = Mathlib RegularExpression.matches') for all expressions and sequences of unbounded length, plus ~50 regenerated certificate theorems per run; schema construction (buildSchema) accepts exactly the well-formed, live specs and its automata accept the specified languages. The proof of the general theorem exposed two defects of the pinned code (`{0,}` loop on a shared node; local dead-end check), both repaired.",
-   note=T + "The grammar reader specParse (60 lines, total) is the specification of 'the expression read as a regular expression'; parse_agrees proves that the model of the code's parser reads every expression with plain numbers exactly as specParse does (PlainNumbers: what Python's int() accepts beyond ASCII digits is tied, not proved).",
+   note=T + "The grammar reader specParse (60 lines, total) is the specification of 'the expression read as a regular expression'; parse_agrees proves that the model of the code's parser reads every expression with plain numbers exactly as specParse does (PlainNumbers: what Python's int() accepts beyond ASCII digits is tied, not proved). For the bundled schema family the schema-level guards are themselves theorems: the schemas are regenerated as Lean data from the running library on every run and the guards evaluated by the kernel (lean/Gen, lean/Family: closed corollaries without schema hypotheses).",
    design="§5 C06"),
  "C07": dict(
    technique="Lean 4 theorems: valid_content / check / can_replace / can_replace_with / can_append / create_checked equal the definition of validity over the spliced child sequence; node-level tables of a compiled schema follow from the spec (compileSchema); exact correspondence of all predicates, of create_checked and of schema construction field by field",
    text="18 kernel-checked theorems (Props/C07.lean) for arbitrary automata and nodes; exact correspondence of the predicates on generated nodes, index ranges, replacement fragments and candidate types every run; the independent validator decides the expected answers.",
-   note=T + "The automaton is an input here; its agreement with the content expression is C06's subject.",
+   note=T + "The automaton is an input here; its agreement with the content expression is C06's subject. For the bundled schema family the schema-level guards are themselves theorems: the schemas are regenerated as Lean data from the running library on every run and the guards evaluated by the kernel (lean/Gen, lean/Family: closed corollaries without schema hypotheses).",
    design="§5 C07"),
  "C08": dict(
    technique="Lean 4 theorems over an executable model of StepMap/Mapping (prefix-sum rule, monotonicity, deletion flags, recover, for_each, touches, inversion, composition under slice/append/invert, mirror round trip for palindrome chains of any length) + exact correspondence of every map/mapping operation + copy-independence oracle",
@@ -48,8 +48,8 @@ CLAIMED = {
    note=T + "Guards: WF (sorted, non-overlapping) for the rule; StrictWF (a position between ranges) for for_each/map agreement and mirror round trips, with counterexample theorems showing the guard is needed.",
    design="§5 C08"),
  "C09": dict(
-   technique="Lean 4 theorems relating resolve and every accessor (depth, ancestors, indices, start/end/before/after, offsets, node before/after, marks, marks_across, shared depth, block range, NodeRange), node_at, nodes_between (sound AND complete, document order), range_has_mark and text_between (with separators) to the flat UTF-16 token sequence; exact correspondence of every accessor at every aligned position / range; token-picture oracles",
-   text="40 kernel-checked theorems (Props/C09.lean; Proofs/Resolve, ResolveNodes, Traverse, Range) for unbounded documents.",
+   technique="Lean 4 theorems relating resolve and every accessor (depth, ancestors, indices, start/end/before/after, offsets, node before/after, marks, marks_across, shared depth, block range, NodeRange), node_at, child / maybe_child (incl. Python's negative indices) / find_index (both roundings, stale size cache), child_after/before, nodes_between (sound AND complete, document order), range_has_mark and text_between (with separators) to the flat UTF-16 token sequence; exact correspondence of every accessor at every aligned position / range, also in a schema with inline nodes and atoms that have content; token-picture oracles",
+   text="{n} kernel-checked theorems (Props/C09.lean; Proofs/Resolve, ResolveNodes, Traverse, Range, SepSpec, FragOps) for unbounded documents.",
    note=T + "Guards: pair-aligned positions; NoEmptyText (implied by normal form) where the code clips empty text nodes.",
    design="§5 C09"),
  "C10": dict(
@@ -58,39 +58,39 @@ CLAIMED = {
    note=T + "Largest trusted piece: the syntactic, intra-procedural escape analysis and its reviewed-site table; mutation through aliases made in another function, setattr or C extensions is found by the snapshot search only.",
    design="§5 C10"),
  "C11": dict(
-   technique="Lean 4 theorems over an executable model of replace_step incl. the Fitter as a state machine, fits_trivially, delete_range, replace_range, replace_range_with and close_fragment: the emitted step starts at `from`, extends the range only over close tokens (fit_range), inserts only an in-order subsequence of the requested text (fitter text invariant), hence content preservation for every fitted replace step, for delete_range and for replace_range as wholes; TERMINATION of the fitting loop characterised exactly (fitStep_decreases, fitLoop_outOfFuel_exact: the model runs out of fuel iff the loop provably cycles; fitLoop_terminates under the decidable guard termGuard); TOTALITY proved for deletions (delete_total, deleteRange_total) and closed slices of leaf/text nodes (insertInline_total); exact correspondence of the emitted step with the real replace_step / delete_range / replace_range on every generated case, guards evaluated on every request; totality for other slices by search over the bundled family",
-   text="{n} kernel-checked theorems (Props/C11.lean; Proofs/Fitter, FitterText, RangeOps, ReplaceRange, Respects, FitMeasure, FitTerm, FitLoop, FitTotal, FitDelete, FitInline, FillOrder). The Fitter model agrees with the real fitter on >10^5 generated requests per thorough run.",
-   note=T + "fitter_respects is partial for replace-around steps (one conjunct stays a monitored hypothesis); 'never raises' for slices that get opened is proved only as far as fuel (fit_no_internal_partial) and otherwise decided by search (open finding C11-fitter-partial-node: clipboard-style slices); a divergence example outside the bundled family is proved in the model and reproduced on the real code in every run; termination of the real loops by a per-call alarm.",
+   technique="Lean 4 theorems over an executable model of replace_step incl. the Fitter as a state machine, fits_trivially, delete_range, replace_range, replace_range_with and close_fragment: the emitted step starts at `from`, extends the range only over close tokens, inserts only an in-order subsequence of the requested text (content preservation for every fitted replace step, delete_range and replace_range as wholes); TERMINATION of the fitting loop characterised exactly (fitLoop_outOfFuel_exact); loop invariants inStep and coherent (frontier matches = automaton states after the placed children) proved; the emitted step is WELL-FORMED (fit_emits_wf) and, for deletions, a VALID PAYLOAD (delete_emits_valid_payload); TOTALITY proved for deletions and closed slices of leaf/text nodes; exact correspondence of the emitted step with the real replace_step / delete_range / replace_range on every generated case, guards and invariants evaluated on every request and after every loop iteration; totality for other slices by search over the bundled family",
+   text="{n} kernel-checked theorems (Props/C11.lean; Proofs/Fitter, FitterText, RangeOps, ReplaceRange, Respects, FitMeasure, FitTerm, FitLoop, FitTotal, FitDelete, FitInline, FillOrder, FitInv, FitInStep, FitCoherent, FitValid). The Fitter model agrees with the real fitter on >10^5 generated requests per thorough run.",
+   note=T + "fitter_respects is partial for replace-around steps (one conjunct stays a monitored hypothesis); 'never raises' and payload validity for slices that get opened are not proved (groundwork lemmas; open finding C11-fitter-partial-node: clipboard-style slices) and are decided by search; a divergence example outside the bundled family is proved in the model and reproduced on the real code in every run; termination of the real loops by a per-call alarm. For the bundled schema family the schema-level guards are themselves theorems: the schemas are regenerated as Lean data from the running library on every run and the guards evaluated by the kernel (lean/Gen, lean/Family: closed corollaries without schema hypotheses).",
    design="§5 C11"),
  "C12": dict(
-   technique="Lean 4 theorems over executable models of the four builders (lift, wrap, split, join) and all helpers (can_split, can_join, join_point, lift_target, find_wrapping, insert_point, drop_point, can_change_type): every built step is structural and, if it applies, preserves the text/leaf sequence exactly; returned positions/depths are in range; the helpers never raise on valid documents and in-range, aligned input; AN APPROVED EDIT SUCCEEDS for split, join, wrap and lift (canSplit_split_applies, canJoin_join_applies, findWrapping_wrap_succeeds, liftTarget_lift_applies) under decidable guards found by the proofs; exact correspondence of every built step, every helper answer and the guards",
-   text="{n} kernel-checked theorems (Props/C12.lean; Proofs/StructEdit, Structure, Structure2, SplitSuccess, JoinSuccess, WrapSuccess, LiftSuccess).",
-   note=T + "The success theorems carry guards (splitGuard, joinGuard, wrapGuard, liftGuard) that hold on the bundled family wherever the helper approves, are evaluated on every approved case, and are each shown necessary on exotic schemas; success after insert_point / drop_point is decided by search on the bundled family; open findings: lift of nested list items, wrap ignoring marks, fitter-partial-node in the drop_point follow-up.",
+   technique="Lean 4 theorems over executable models of the four builders (lift, wrap, split, join) and all helpers (can_split, can_join, join_point, lift_target, find_wrapping, insert_point, drop_point, can_change_type): every built step is structural and, if it applies, preserves the text/leaf sequence exactly; returned positions/depths are in range; the helpers never raise on valid documents and in-range, aligned input; AN APPROVED EDIT SUCCEEDS for split, join, join_point, wrap, lift, insert_point (incl. inside text and marked nodes at top level), drop_point (closed slices, first pass), can_change_type → set_node_markup, each under decidable guards found by the proofs, with counterexamples; exact correspondence of every built step, every helper answer and the guards",
+   text="{n} kernel-checked theorems (Props/C12.lean; Proofs/StructEdit, Structure, Structure2, SplitSuccess, JoinSuccess, WrapSuccess, LiftSuccess, LiftSplit, InsertSuccess, ResolveBoundary, JoinPointSuccess, RetypeSuccess, FitTopLevel).",
+   note=T + "The success theorems carry guards (splitGuard, joinGuard, wrapGuard, liftGuard, insertGuard, dropGuard, changeTypeGuard) that are evaluated on every approved case and each shown necessary on exotic schemas; drop_point for open slices and its second pass go through the Fitter (proved: exactly when; success there is decided by search on the bundled family); open findings: lift of nested list items, wrap ignoring marks, fitter-partial-node in the drop_point follow-up. For the bundled schema family the schema-level guards are themselves theorems: the schemas are regenerated as Lean data from the running library on every run and the guards evaluated by the kernel (lean/Gen, lean/Family: closed corollaries without schema hypotheses).",
    design="§5 C12"),
  "C13": dict(
    technique="Lean 4 theorems over executable models of the planners (add_mark, remove_mark incl. mark-type and all-marks forms, add/remove_node_mark, set_node_attribute, set_node_markup, clear_incompatible, set_block_type): token-level effect of the whole plan (documented add rule, nothing matching left after removal, structure/text and marks outside unchanged, node-level edits local, retyping keeps children), the range planners never fail on valid documents (addMark_total, removeMark_total); the node planners are proved both against recorded Fitter answers and with the Fitter model plugged in (TypePlanFit: *_agrees, clearIncompatibleF_spec, setBlockTypeF_spec_plain); exact correspondence of the emitted step lists, final documents and Fitter consultations",
    text="{n} kernel-checked theorems (Props/C13.lean; Proofs/MarkPlan, MarkEffect, MarkTotal, TypePlan, TypePlanFit, KeptChildren).",
-   note=T + "planAddMark_exact carries the flat-range hypothesis (an inline node with content in the range makes the exact rule false in code and upstream; the general planAddMark_effect holds everywhere). Where clear_incompatible consults the Fitter for fillers the theorem states exactly what is known of the answer (no text, close tokens only); for plain target types the Fitter is provably never consulted.",
+   note=T + "planAddMark_exact carries the flat-range hypothesis (an inline node with content in the range makes the exact rule false in code and upstream; the general planAddMark_effect holds everywhere). Where clear_incompatible consults the Fitter for fillers the theorems state what is known of the answer (well-formed step, no text, close tokens only); for plain target types the Fitter is provably never consulted. For the bundled schema family the schema-level guards are themselves theorems: the schemas are regenerated as Lean data from the running library on every run and the guards evaluated by the kernel (lean/Gen, lean/Family: closed corollaries without schema hypotheses).",
    design="§5 C13"),
  "C14": dict(
    technique="Lean 4 theorems: add_to_set equals the documented rule, canonical form is an invariant of every add/remove sequence, check()'s mark test accepts exactly canonical sets, removal/membership/equality/filtering are the set operations; the exclusion and permission tables of a compiled schema follow from the spec (excluded_spec, markSet_spec, compile_accepts_iff); exact correspondence of every mark operation and of schema construction",
    text="30 kernel-checked theorems (Props/C14.lean; Proofs/Marks, SchemaCompile).",
-   note=T,
+   note=T + "For the bundled schema family the schema-level guards are themselves theorems: the schemas are regenerated as Lean data from the running library on every run and the guards evaluated by the kernel (lean/Gen, lean/Family: closed corollaries without schema hypotheses).",
    design="§5 C14"),
  "C15": dict(
    technique="Lean 4 theorems: filler search sound and complete; wrapper search sound, COMPLETE and SHORTEST; create_and_fill returns a valid node containing the content in order, returns nothing exactly when no filling exists (LiveSchema), never dies internally; the copies of these searches used by the Fitter, the planners and the HTML parser are proved equal to them (Proofs/Unify) so the theorems transfer; exact correspondence of fill_before, find_wrapping (same chain) and create_and_fill",
    text="{n} kernel-checked theorems (Props/C15.lean; Proofs/Fill, Wrap, CreateFill, MkNode, Unify, FillOrder).",
-   note=T + "Guards: deterministic automata, LiveSchema (what the repaired dead-end check of the schema constructor guarantees). Recursion of create_and_fill on ill-founded schemas is modelled by fuel with an explicit outOfFuel outcome.",
+   note=T + "Guards: deterministic automata, LiveSchema (what the repaired dead-end check of the schema constructor guarantees). Recursion of create_and_fill on ill-founded schemas is modelled by fuel with an explicit outOfFuel outcome. For the bundled schema family the schema-level guards are themselves theorems: the schemas are regenerated as Lean data from the running library on every run and the guards evaluated by the kernel (lean/Gen, lean/Family: closed corollaries without schema hypotheses).",
    design="§5 C15"),
  "C16": dict(
-   technique="Lean 4 theorems: a merged step yields the token sequence / document of the two steps; merged mark steps APPLY whenever the pair does (merge_succeeds_marks, unconditional equivalence merge_equiv_marks under TextLoop); merged replace steps apply — flat slices in every schema (merge_succeeds_replace_flat), slices open on their outer sides and ranges across node boundaries under compatTransB (merge_succeeds_replace; merge_needs_guard shows the guard necessary); relational correspondence of merge; search over bundled and random schemas",
-   text="{n} kernel-checked theorems (Props/C16.lean; Proofs/Merge, MarkMerge, FlatReplace, MergeOpen, MergeRel, SpineCongr, ReplaceAligned).",
-   note=T + "compatTransB (compatible_content transitive) holds for every bundled-family schema and is evaluated through the driver on each; which pairs merge is not pinned by the property.",
+   technique="Lean 4 theorems: a merged step yields the token sequence / document of the two steps; merged mark steps APPLY whenever the pair does (merge_succeeds_marks, merge_equiv_marks under TextLoop; merge_succeeds_marks_covered without); merged replace steps apply — flat slices in every schema, the forward branch for open slices and ranges across node boundaries in every schema (merge_succeeds_replace_forward), the backward branch exactly when the decidable per-case guard mergeCompat holds (merge_succeeds_replace_iff; implied by compatTransB); exact correspondence of merge (which pairs merge and the merged step); search over bundled and random schemas",
+   text="{n} kernel-checked theorems (Props/C16.lean; Proofs/Merge, MarkMerge, FlatReplace, MergeOpen, MergeRel, SpineCongr, ReplaceAligned, MergeForward, MergeGuard, MergeNecessary).",
+   note=T + "mergeCompat is compared exactly with the real code on every merged replace pair; compatTransB holds for every bundled-family schema (kernel-checked over the regenerated schema values). TextLoop appears not to be forced for merged mark steps (no counterexample in 3·10^5 pairs) but the proof needs it. For the bundled schema family the schema-level guards are themselves theorems: the schemas are regenerated as Lean data from the running library on every run and the guards evaluated by the kernel (lean/Gen, lean/Family: closed corollaries without schema hypotheses).",
    design="§5 C16"),
  "C17": dict(
-   technique="Lean 4 theorems: rebasing over a separated step never drops a step and shifts it exactly (replace, replace-around, markup steps, also inside a replace-around step's kept gap); both orders give equal token sequences / documents for replace-replace, replace-node-step, markup-markup, replace-around against replace / replace-around / node / mark steps, and replace-mark pairs under the explicit guard ParentStable; BOTH ORDERS APPLY (commute_succeeds_*) for replace-replace and replace vs. replace-around under the decidable commuteGuard; exact correspondence of Step.map incl. overlapping pairs and of the whole rebase-and-apply square; convergence search",
-   text="{n} kernel-checked theorems (Props/C17.lean; Proofs/Commute*, CommuteAround*, ContentBetweenToks).",
-   note=T + "Success of both orders is not yet proved for a partner inside a replace-around step's gap and for two replace-around steps (convergence is; decided by search there); open finding C17-parent-retyped (the guard ParentStable is necessary).",
+   technique="Lean 4 theorems: rebasing over a separated step never drops a step and shifts it exactly (replace, replace-around, markup steps, also inside a replace-around step's kept gap); both orders give equal token sequences / documents for every separated pair of step kinds (replace-mark pairs under the explicit guard ParentStable); BOTH ORDERS APPLY (commute_succeeds_*) for replace-replace, replace vs. replace-around, two replace-around steps, a partner inside a replace-around step's gap (closed slices, guard gapGuard), and node / mark steps against replace-around steps (closed slices resp. commuteGuard); exact correspondence of Step.map incl. overlapping pairs, of the whole rebase-and-apply square and of the guards; convergence search",
+   text="{n} kernel-checked theorems (Props/C17.lean; Proofs/Commute*, CommuteAround*, ContentBetweenToks, GapInner).",
+   note=T + "Success is not proved for replace-around steps whose slice is open on a side with a partner in the gap, and guard-free for mark steps (decided by search there); in-gap partners are overlapping in the property's sense; open finding C17-parent-retyped (the guard ParentStable is necessary).",
    design="§5 C17"),
  "C18": dict(
    technique="Lean 4 theorems: a step whose range lies within an isolating node leaves everything outside untouched; covered_depths, delete_range's widened range, lift_target and can_split never cross an isolating ancestor (over executable models tied exactly); exact correspondence of Slice.max_open, the emitted steps and the helpers; literal token oracle",
@@ -98,9 +98,9 @@ CLAIMED = {
    note=T + "Open findings (upstream): the Fitter splits an isolating node when content cannot be placed; insert_point walks out of it; fitter-partial-node.",
    design="§5 C18"),
  "C19": dict(
-   technique="Lean 4 theorems for both directions: escaping is lossless, the serializer carries the text; context expressions match exactly the declarative reading (matchesContext_spec, context_rules_apply_exactly); the WHOLE PARSE is modelled — the DOM walk over an abstract DOM (rule and style matching order, whitespace rewrites, normalize_list, pending/active marks, the placement core) with proved termination — and parse_total, parse_valid (whatever parse returns is schema-valid), parse_no_internal (no internal error under decidable guards on schema, rules and DOM) are proved for every DOM and every oracle; exact ties: serializer output, matches_context, schema_rules order, and the whole parse (event list, final document) against real parses",
-   text="{n} kernel-checked theorems (Props/C19.lean; Proofs/Dom, FromDom, Placement*, DomWalk, DomWalkSafe, PlacementNoInternal).",
-   note=T + "Oracle boundary (NOT modelled, answers recorded from the real run and fed to the model): lxml's HTML tokenizer, CSS selector matching, get_attrs callables, parse_styles' regex, clear_mark callables; their termination and crash-freedom are decided by search with a per-call alarm. The export-import round trip is decided by search. parse_valid needs Det, TextStable, LeafOk (counterexample schemas recorded).",
+   technique="Lean 4 theorems for both directions and their composition: escaping is lossless; context expressions match exactly the declarative reading; the WHOLE PARSE is modelled (DOM walk over an abstract DOM with an oracle for selectors and callables, whitespace rewrites, normalize_list, marks, placement core) with proved termination — parse_total, parse_valid, parse_no_internal for every DOM and oracle; and the ROUND TRIP: for a document satisfying the decidable predicate rtOk (valid, whitespace-normal, attributes carried by the rules), parsing the serializer's output gives back the document (roundtrip), with the oracle filled in from the rule table; exact ties: serializer output, matches_context, schema_rules order, the whole parse and the whole round trip (HTML, abstract DOM, result) against the real code",
+   text="{n} kernel-checked theorems (Props/C19.lean; Proofs/Dom, FromDom, Placement*, DomWalk, DomWalkSafe, PlacementNoInternal, RoundTrip*).",
+   note=T + "Oracle boundary (NOT modelled, answers recorded from the real run and fed to the model): lxml's HTML tokenizer, CSS selector matching, get_attrs callables, parse_styles' regex, clear_mark callables; their termination and crash-freedom are decided by search with a per-call alarm. For the round trip the oracle is computed by the model itself from the rule table (restricted rule forms of the bundled schemas). parse_valid needs Det, TextStable, LeafOk (counterexample schemas recorded). For the bundled schema family the schema-level guards are themselves theorems: the schemas are regenerated as Lean data from the running library on every run and the guards evaluated by the kernel (lean/Gen, lean/Family: closed corollaries without schema hypotheses).",
    design="§5 C19"),
  "C20": dict(
    technique="Lean 4 theorems: find_diff_start/end return none iff equal and otherwise the common prefix/suffix length of the marked-up token sequences; exact correspondence incl. identity-sharing before/after pairs under a per-call alarm",
